@@ -78,4 +78,68 @@ theorem stochasticRsi_formula (N : Nat) (p : Nat) (fs : List ℝ) (h0 : 1 ≤ p)
   · simp [PS.mmax, PS.mmin, PS.map2, Spec.rsi, PS.map]
   · intro i _; rfl
 
+/-- an accumulator over two aligned streams (`scan2` whose state is its output) is the documented
+    running recurrence `acc_i = F acc_{i-1} a_i b_i` started from `init` -/
+theorem agree_accum2 {x : Nat → Nat → ℝ} {a b : Sig ℝ} {PA PB : PS ℝ} (N : Nat) (init : ℝ) (F : ℝ → ℝ → ℝ → ℝ)
+    (ha : Agree x a PA) (hb : Agree x b PB) (hs : PA.start = PB.start) :
+    Agree x (Sig.scan2 ℝ init (fun prev u v => (F prev u v, F prev u v)) a b)
+      (PS.cumul N PA.start init (fun acc i => F acc (PA.val i) (PB.val i))) := by
+  have hoffa := ha.offD
+  constructor
+  · simp [off, ha.1, hb.1, join2, hs, PS.cumul]
+  · intro i hi
+    simp only [PS.cumul] at hi ⊢
+    simp only [den, hoffa, PS.tabVal_eq, scanOut2]
+    have key : ∀ m, (scanSt2 (fun (prev u v : ℝ) => (F prev u v, F prev u v)) init
+        (fun m => den x a (PA.start + m)) (fun m => den x b (PA.start + m)) (m + 1))
+        = PS.recG (F init (PA.val PA.start) (PB.val PA.start))
+            (fun acc k => F acc (PA.val (PA.start + k + 1)) (PB.val (PA.start + k + 1))) m := by
+      intro m
+      induction m with
+      | zero =>
+        simp only [scanSt2, PS.recG, Nat.add_zero]
+        rw [ha.2 PA.start (Nat.le_refl _), hb.2 PA.start (by omega)]
+      | succ m ih =>
+        rw [scanSt2, ih]
+        simp only [PS.recG]
+        rw [ha.2 (PA.start + (m + 1)) (by omega), hb.2 (PA.start + (m + 1)) (by omega)]
+        simp [Nat.add_assoc]
+    have := key (i - PA.start)
+    simp only [scanSt2] at this
+    exact this
+
+theorem nvi_formula (N : Nat) (fs : List ℝ) (x : Nat → Nat → ℝ) :
+    ∃ e ps, lookup "Nvi" [] fs = some e ∧ Spec.formulas N "Nvi" [] fs x = some ps ∧
+      List.Forall₂ (Agree x) e.outs ps := by
+  refine ⟨_, _, rfl, rfl, ?_⟩
+  refine List.Forall₂.cons ?_ List.Forall₂.nil
+  simp only [Ind.nvi, Ind.i0, Ind.i1]
+  have hcr : Agree x (Ind.changeRatio 1 (Sig.input 0)) ⟨1, fun i => (x 0 i - x 0 (i - 1)) / x 0 (i - 1)⟩ := by
+    unfold_light
+    apply Sig.Agree.cast
+    agree_core N
+    all_goals (try ps_simp)
+    all_goals (first | omega | (intro i hi; trivial) | (intro i hi; rfl))
+  have hvc : Agree x (Ind.change 1 (Sig.input 1)) ⟨1, fun i => x 1 i - x 1 (i - 1)⟩ := by
+    unfold_light
+    apply Sig.Agree.cast
+    agree_core N
+    all_goals (try ps_simp)
+    all_goals (first | omega | (intro i hi; trivial) | (intro i hi; rfl))
+  have h := agree_accum2 N (fs.getD 0 Ind.zero)
+    (fun prev u v => if Arith.le v Ind.zero then prev + u * prev else prev) hcr hvc rfl
+  refine h.cast rfl ?_
+  intro i _
+  have z : (Ind.zero : ℝ) = 0 := by simp [Ind.zero]
+  have hF : (fun (acc : ℝ) (i : ℕ) => if Arith.le (x 1 i - x 1 (i - 1)) Ind.zero then acc + (x 0 i - x 0 (i - 1)) / x 0 (i - 1) * acc else acc)
+      = (fun acc i => if Arith.gt (x 1 i) (x 1 (i - 1)) then acc else acc + (x 0 i - x 0 (i - 1)) / x 0 (i - 1) * acc) := by
+    funext acc j
+    by_cases hv : x 1 (j - 1) < x 1 j
+    · have : ¬ (x 1 j - x 1 (j - 1) ≤ 0) := by linarith
+      simp [z, hv, this]
+    · have : x 1 j - x 1 (j - 1) ≤ 0 := by linarith
+      simp [z, hv, this]
+  show (PS.cumul N 1 (fs.getD 0 Ind.zero) (fun acc i => if Arith.le (x 1 i - x 1 (i - 1)) Ind.zero then acc + (x 0 i - x 0 (i - 1)) / x 0 (i - 1) * acc else acc)).val i = _
+  rw [hF]
+
 end C01
